@@ -54,6 +54,10 @@ CLAIMED = {
          "Decides clauses R10.1-R10.4: each sha256 input is assembled by appends inside loops over slices sorted before the loop (never inside a map range or callback), leaves are element hashes in slice order; the state hash covers key and value, the account preimage covers address, account record and state hash, and hash/journal/commit select keys with the same changed-value predicate; the preimage encoding is checked for delimiters (known finding: key||value); no in-place arithmetic on balance objects obtained from getters. Not collision resistance.",
          "go/ssa model; sha256/merkletree trusted",
          "DESIGN.md section 5 C10"),
+ "C11": ("happens-before rule over the durable writes of one block commit (program order, go closures unordered, WaitGroup joins), single-atomic-batch rule for the state store, must-pass-through rules on the three constructors, error-discipline rule for persistence calls",
+         "Decides clauses R11.1-R11.4 (write-ordering and reconciliation clause only): state commit precedes chain persist; blockfile append and all index writes precede the commit of the batch carrying the chain meta; SimpleLedger.Commit writes data + journal + max marker through one batch committed once, nothing directly, memory height / pruning after it; ledger.New returns only after Rollback(chain height) succeeded, NewChainLedgerImpl truncates blockfile surplus, NewSimpleLedger refuses a height without journal; no persistence error is dropped. The set of reachable on-disk states, leveldb / blockfile atomicity, crash during rollback and re-execution equivalence are not decided.",
+         "go/ssa model; leveldb batch atomicity and blockfile repair() trusted",
+         "DESIGN.md section 5 C11"),
  "C12": ("SSA ordering rules on the rollback functions, storage-kind table agreement between Commit and revertJournal, struct-field completeness of the cache purge",
          "Decides clauses R12.1-R12.4: refusal returns are not reachable after any mutation; the chain rollback runs only after a successful state rollback; caches are cleared before any journal revert and clear() purges every lru layer; the kinds Commit writes are the kinds revertJournal restores (put and delete), journal record/max marker/data share one batch, each reverted height deletes its record and lowers the marker in the batch carrying the reverted data, captured journal fields = restored fields; prevJnlHash (from the target height's journal) and maxJnlHeight are stored on every successful path. Not value-level equality.",
          "go/ssa model (defer-spilled results resolved); leveldb batch atomicity trusted",
